@@ -149,6 +149,7 @@ func lockKeyOf(fd *ast.FuncDecl, m method, consts map[string]string) (string, []
 		}
 	}
 	// locals of the form  x := params.M()
+	aliasOf := map[string]string{}
 	locals := map[string]string{}
 	assigns := map[string][]ast.Expr{}
 	ast.Inspect(fd.Body, func(x ast.Node) bool {
@@ -163,6 +164,21 @@ func lockKeyOf(fd *ast.FuncDecl, m method, consts map[string]string) (string, []
 		assigns[id.Name] = append(assigns[id.Name], as.Rhs[0])
 		return true
 	})
+	// local aliases of parameters:  x := <param>  (assigned once) stands for the parameter
+	for changed := true; changed; {
+		changed = false
+		for name, rhs := range assigns {
+			if len(rhs) != 1 || params[name] {
+				continue
+			}
+			if id, ok := rhs[0].(*ast.Ident); ok && params[id.Name] {
+				params[name] = true
+				canon[name] = canon[id.Name]
+				aliasOf[name] = id.Name
+				changed = true
+			}
+		}
+	}
 	for name, rhs := range assigns {
 		if len(rhs) != 1 {
 			continue
@@ -204,7 +220,19 @@ func lockKeyOf(fd *ast.FuncDecl, m method, consts map[string]string) (string, []
 					fatal("Prometheus.%s: field %s of %s is %s, not a parameter of the method", m.name, k, tn, src(kv.Value))
 				}
 				fields[k] = k
-				canon[id.Name] = k
+				root := id.Name
+				for aliasOf[root] != "" {
+					root = aliasOf[root]
+				}
+				for name := range params {
+					r := name
+					for aliasOf[r] != "" {
+						r = aliasOf[r]
+					}
+					if r == root {
+						canon[name] = k
+					}
+				}
 			case "r":
 				rl, ok := kv.Value.(*ast.CompositeLit)
 				if !ok || src(rl.Type) != "v1.Range" {
